@@ -240,6 +240,17 @@ func runOpFaults(c OpFaultCase) (pbt.Result, error) {
 				if err := sb.CompareOutputs(expect, selected); err != nil {
 					return res, pbt.Fail("C07:wrong-output-after-recovery", "after %s the next build leaves wrong outputs: %v", what, err)
 				}
+				// (3) ... and what the recovery build published on top of the leftovers is consistent as well (a result must
+				// not lean on blobs that only the interrupted build was going to write)
+				for _, cdir := range sb.CacheDirs() {
+					st, aerr := audit.LoadDir(cdir)
+					if aerr != nil {
+						return res, fmt.Errorf("harness: audit: %w", aerr)
+					}
+					if ps := audit.Check(st); len(ps) > 0 {
+						return res, pbt.Fail("C07:"+ps[0].Kind+"-after-recovery", "after %s and the fault-free build that followed, the cache is inconsistent: %s", what, ps[0].Msg)
+					}
+				}
 			}
 		}
 	}
